@@ -2083,11 +2083,25 @@ func main() {
 	run := vh.Start("C02")
 	theRun = run
 	auxRng = rand.New(rand.NewSource(run.Seed*104729 + 11))
+	// the tcp-dynamic listener loop runs beside the other classes (its driver process mostly sleeps);
+	// its cases are added after theirs, so their ids and inputs do not change
+	tdCh := make(chan *tdResult, 1)
+	go func() { tdCh <- tcpDynCases(run.Seed, !run.Thorough()) }()
 	buildCases(run)
 	customCases(run)
 	schedCases(run)
 	loopCases(run)
 	stress(run)
 	raceReports(run)
+	td := <-tdCh
+	for _, a := range td.adds {
+		run.Add(a.class, a.term, a.sample)
+	}
+	for _, v := range td.viol {
+		run.Violation(-1, v.what, v.input)
+	}
+	for _, e := range td.excl {
+		run.Exclude(e)
+	}
 	run.Finish(preamble, run.Scale(32, 300))
 }
